@@ -175,13 +175,20 @@ def expected_order(ns, indices):
 # ------------------------------------------------------------------------------------------------------------------
 # generator
 # ------------------------------------------------------------------------------------------------------------------
-def gen_namespace(rng, n_defs=None, n_roots=None, allow_services=True, allow_ports=False, uavcan_ext=True, next_id=None):
+def gen_namespace(rng, n_defs=None, n_roots=None, allow_services=True, allow_ports=False, uavcan_ext=True, next_id=None, same_name_lookup=None):
     n_roots = n_roots or rng.choice([1, 1, 2, 2, 3])
     names = rng.sample(ROOT_NAMES, n_roots)
     roots = []
     for i, nm in enumerate(names):
         prefix = rng.choice(["", "ws", "ws/proj", "third_party/x"])
         roots.append({"dir": (prefix + "/" if prefix else "") + nm, "name": nm})
+    if same_name_lookup is None:
+        same_name_lookup = rng.random() < 0.3
+    if same_name_lookup:
+        # the target's root namespace is defined partially in a second directory of the same name (allowed by default):
+        # that directory is a lookup directory like any other
+        roots.append({"dir": "elsewhere/" + roots[0]["name"], "name": roots[0]["name"]})
+        n_roots += 1
     # roots must not be nested in each other: distinct leaf names under possibly shared prefixes are fine
     n_defs = n_defs or rng.randrange(3, 15)
     defs = []
@@ -202,8 +209,9 @@ def gen_namespace(rng, n_defs=None, n_roots=None, allow_services=True, allow_por
             ver = (rng.choice([0, 1, 1, 2, 3]), rng.choice([0, 1, 2, 5]))
             if ver == (0, 0):
                 ver = (0, 1)
-            key = (root, tuple(nsp), short.lower(), ver)
-            namekey = (root, tuple(x.lower() for x in nsp), short.lower())
+            rname = roots[root]["name"]  # directories of the same name contribute to ONE root namespace
+            key = (rname, tuple(nsp), short.lower(), ver)
+            namekey = (rname, tuple(x.lower() for x in nsp), short.lower())
             # keep names unique up to letter case within the tree (case collisions are generated on purpose elsewhere)
             clash = any((u[0], tuple(x.lower() for x in u[1]), u[2]) == namekey and (u[1] != tuple(nsp)) for u in used)
             if key in used or clash:
@@ -222,7 +230,7 @@ def gen_namespace(rng, n_defs=None, n_roots=None, allow_services=True, allow_por
     # same major version => same kind/sealing (C11 rules are not the subject here): normalise groups
     groups = {}
     for d in defs:
-        groups.setdefault((d["root"], tuple(d["ns"]), d["short"], d["ver"][0]), []).append(d)
+        groups.setdefault((roots[d["root"]]["name"], tuple(d["ns"]), d["short"], d["ver"][0]), []).append(d)
     for g in groups.values():
         for d in g:
             d["kind"] = g[0]["kind"]
@@ -242,7 +250,7 @@ def gen_namespace(rng, n_defs=None, n_roots=None, allow_services=True, allow_por
                 continue
             if full_name(ns, t) == full_name(ns, d):
                 continue
-            same_ns = t["root"] == d["root"] and t["ns"] == d["ns"]
+            same_ns = namespace_of(ns, t) == namespace_of(ns, d)
             spell = "relative" if (same_ns and rng.random() < 0.6) else "absolute"
             arr = rng.choice([None, None, ("fixed", rng.randrange(1, 4)), ("var", rng.randrange(1, 5))])
             d["refs"].append({"target": j, "spell": spell, "array": arr})
